@@ -957,6 +957,7 @@ func (s *SweepingProvider) closestPeersToPrefix(prefix bitstr.Key) ([]peer.ID, b
 		if len(allClosestPeers) <= closestPeersBefore {
 			noFreshPeersFoundCount++
 			if noFreshPeersFoundCount >= maxConsecutiveNoFreshPeers {
+				verifPoint("explore:gaveup", string(prefix))
 				break
 			}
 		} else {
